@@ -6,17 +6,17 @@
 import PyshaclModel.Shapes
 namespace Pyshacl
 
-/-- `implicit_class_targets`: the shape node itself when one of its types is rdfs:Class or a
-    direct rdfs:subClassOf of it in the shapes graph -/
-def implicitClassTargets (sg : Graph) (node : Term) : List Term :=
-  let types := sg.objects node rdfType
-  let subclasses := sg.subjects rdfsSubClassOf rdfsClass ++ [rdfsClass]
-  if types.any (fun t => t ∈ subclasses) then [node] else []
-
 /-- `data_graph.transitive_subjects(rdfs:subClassOf, c)` -/
 def transitiveSubjects (dg : Graph) (p c : Term) : List Term :=
   let step := fun u => dg.subjects p u
   closure step (closureFuel step (c :: dg.nodes) [c]) [c] []
+
+/-- `implicit_class_targets`: the shape node itself when one of its types is rdfs:Class or a
+    transitive rdfs:subClassOf of it in the shapes graph -/
+def implicitClassTargets (sg : Graph) (node : Term) : List Term :=
+  let types := sg.objects node rdfType
+  let subclasses := transitiveSubjects sg rdfsSubClassOf rdfsClass
+  if types.any (fun t => t ∈ subclasses) then [node] else []
 
 /-- `data_graph.transitive_objects(c, rdfs:subClassOf)` -/
 def transitiveObjects (dg : Graph) (c p : Term) : List Term :=
